@@ -99,7 +99,7 @@ Theorem instance_equiv q :
   = intention_allows re_inst ex_cfg ex_ixns false true ex_conn q.
 Proof.
   destruct example_hyps as (H1 & H2 & H3 & H4).
-  exact (equiv_partial re_inst re_inst_alternation ex_cfg ex_ixns false true ex_conn q H1 H2 H3 (ex_ixns_inv q) H4).
+  exact (equiv re_inst re_inst_alternation ex_cfg ex_ixns false true ex_conn q H1 H2 H3 (ex_ixns_inv q)).
 Qed.
 
 (* and it is not decided trivially: GET / is allowed, GET /admin and DELETE / are not *)
@@ -112,9 +112,9 @@ Proof. repeat split; vm_compute; reflexivity. Qed.
 (* the repaired translator on the superset witness list, for every request and default: no hypothesis
    on the precedence order is needed *)
 Theorem instance_repaired d q :
-  eval_rbac re_inst (translate_repaired w_cfg w_superset d false) (w_conn "api") q
+  eval_rbac re_inst (translate w_cfg w_superset d false) (w_conn "api") q
   = intention_allows re_inst w_cfg w_superset d false (w_conn "api") q.
 Proof.
   destruct superset_witness_hyps as (H1 & H2 & H3 & _).
-  exact (equiv_repaired re_inst re_inst_alternation w_cfg w_superset d false (w_conn "api") q H1 H2 H3 (w_superset_inv q)).
+  exact (equiv re_inst re_inst_alternation w_cfg w_superset d false (w_conn "api") q H1 H2 H3 (w_superset_inv q)).
 Qed.
